@@ -109,8 +109,35 @@ func subsets(xs []string) [][]string {
 }
 
 // RunAclZ enumerates authorization decisions of AuthorizeConnection on constructed users and commands.
+type zInput struct {
+	ID          string   `json:"id"`
+	RequirePass bool     `json:"RequirePass"`
+	Auth        bool     `json:"Auth"`
+	User        acl.User `json:"User"`
+	Comm        string   `json:"Comm"`
+	Sub         string   `json:"Sub"`
+	Cats        []string `json:"Cats"`
+	SubCats     []string `json:"SubCats"`
+	Reads       []string `json:"Reads"`
+	Writes      []string `json:"Writes"`
+	Ch          []string `json:"Ch"`
+	SReads      []string `json:"SReads"`
+	SWrites     []string `json:"SWrites"`
+	SCh         []string `json:"SCh"`
+}
+
 func RunAclZ(w *bufio.Writer, seed int64, tier string, replay string) error {
 	n := 0
+	var seqW *bufio.Writer
+	if sp := os.Getenv("VH_SEQS"); sp != "" && replay == "" {
+		f, err := os.Create(sp)
+		if err != nil {
+			return err
+		}
+		defer f.Close()
+		seqW = bufio.NewWriter(f)
+		defer seqW.Flush()
+	}
 	emit := func(rp, auth bool, u acl.User, m zMeta) error {
 		a := acl.NewACL(config.Config{RequirePass: rp, Password: "pw"})
 		uc := u
@@ -154,6 +181,11 @@ func RunAclZ(w *bufio.Writer, seed int64, tier string, replay string) error {
 		fmt.Fprintf(&sb, " R %s", res)
 		w.WriteString(sb.String())
 		w.WriteByte('\n')
+		if seqW != nil {
+			j, _ := json.Marshal(map[string]interface{}{"id": fmt.Sprintf("z%d", n), "z": zInput{fmt.Sprintf("z%d", n), rp, auth, u, m.comm, m.sub, m.cats, m.subCats, m.reads, m.writes, m.ch, m.sreads, m.swrites, m.sc}})
+			seqW.Write(j)
+			seqW.WriteByte('\n')
+		}
 		n++
 		_ = p1.Close()
 		return nil
@@ -164,20 +196,14 @@ func RunAclZ(w *bufio.Writer, seed int64, tier string, replay string) error {
 			return err
 		}
 		var rp struct {
-			Z struct {
-				RequirePass, Auth bool
-				User              acl.User
-				Comm, Sub         string
-				Cats, SubCats     []string
-				Reads, Writes, Ch []string
-				SReads, SWrites   []string
-				SCh               []string
-			} `json:"z"`
+			Seq struct {
+				Z zInput `json:"z"`
+			} `json:"seq"`
 		}
 		if err := json.Unmarshal(data, &rp); err != nil {
 			return err
 		}
-		z := rp.Z
+		z := rp.Seq.Z
 		return emit(z.RequirePass, z.Auth, z.User, zMeta{z.Comm, z.Sub, z.Cats, z.SubCats, z.Reads, z.Writes, z.Ch, z.SReads, z.SWrites, z.SCh})
 	}
 	base := func() acl.User {
